@@ -174,7 +174,7 @@ def BitItem (v : Variant) (x : Nat × List Char × Nat) : Prop :=
 theorem bitItem_of_table (v : Variant) {i : Nat} (hi : i < 13) : ∃ c k, BitItem v (i, c, k) := by
   have ht := tablesOk_all v
   simp only [tablesOk, Bool.and_eq_true, List.all_eq_true, List.mem_range] at ht
-  have hb := ht.1.1.1.1 i hi
+  have hb := ht.1.1.1.1.1 i hi
   unfold bitOk at hb
   split at hb
   · rename_i c hc
